@@ -91,4 +91,40 @@ def delivered (ρ : TopicMap → TopicMap) (a : Asg) (ids ts : List Nat) : Asg :
   fun t id => (mapGet t (received ρ (mapOf a ids ts) id)).getD []
 
 
+/-- `makeAssignments(assignments, offsets)` (partition ids only): for every topic of the member's OWN configuration, in
+listing order, `topicAssignments[topic] = make(…)` and then one entry per received partition of that topic — a topic
+that was received but is not configured never reaches `Generation.Assignments` -/
+def makeAssignments (topics : List Nat) (recv : TopicMap) : TopicMap :=
+  topics.foldl (fun acc t => mapInsert t ((mapGet t recv).getD []) acc) []
+
+/-- `Generation.Assignments` of a member configured with `topics`, as an assignment function -/
+def generationView (ρ : TopicMap → TopicMap) (A : Assignments) (id : Nat) (topics : List Nat) (t : Nat) : List Int :=
+  (mapGet t (makeAssignments topics (received ρ A id))).getD []
+
+/-! ### which partitions the leader's balancer is given -/
+
+def insertNat (x : Nat) : List Nat → List Nat
+  | [] => [x]
+  | y :: ys => if x ≤ y then x :: y :: ys else y :: insertNat x ys
+
+/-- `sort.Strings` (on the topic keys) -/
+def sortNat : List Nat → List Nat
+  | [] => []
+  | x :: xs => insertNat x (sortNat xs)
+
+/-- `extractTopics(members)` (reader.go): every topic some member lists, first occurrences in listing order
+(`visited`), then sorted -/
+def extractTopics (ms : List KV.GroupBalancer.Member) : List Nat :=
+  sortNat (KV.GroupBalancer.firstListings [] (ms.flatMap (·.topics)))
+
+/-- what `conn.readPartitions(topics...)` may return when the cluster's partition listing is `cluster`: for every
+requested topic exactly the cluster's partitions of that topic, in the cluster's order (anything about other topics) -/
+def ReadsTopics (cluster : List KV.GroupBalancer.Part) (topics : List Nat) (got : List KV.GroupBalancer.Part) : Prop :=
+  ∀ t ∈ topics, KV.Spec.GroupAssign.partsOf t got = KV.Spec.GroupAssign.partsOf t cluster ∧
+    ∀ z, KV.Spec.GroupAssign.ledIn got t z = KV.Spec.GroupAssign.ledIn cluster t z
+
+/-- the mock / a broker answering from one metadata snapshot: the requested topics' partitions -/
+def readPartitions (cluster : List KV.GroupBalancer.Part) (topics : List Nat) : List KV.GroupBalancer.Part :=
+  cluster.filter (fun p => topics.contains p.topic)
+
 end KV.GroupGlue
